@@ -16,6 +16,7 @@ import (
 	"context"
 	"io"
 	"log"
+	"runtime"
 	"sort"
 	"strconv"
 	"strings"
@@ -76,8 +77,8 @@ type hist struct {
 	ncall int64
 }
 
-func newHist(c0 uint16) *hist {
-	h := &hist{cli: qnet.NewRpcClient(context.Background(), 16), t0: time.Now(), pkts: map[fatchoy.IPacket]int64{}}
+func newHist(c0 uint16, qsize int) *hist {
+	h := &hist{cli: qnet.NewRpcClient(context.Background(), qsize), t0: time.Now(), pkts: map[fatchoy.IPacket]int64{}}
 	h.cli.VerifSetCounter(c0)
 	return h
 }
@@ -390,6 +391,10 @@ func (h *hist) exec(op Sx, r *rec) {
 }
 
 func run(in Sx) Sx {
+	if in.Len() == 3 && in.At(1).Kind == 'i' { // (3 trials seed): a sweep racing a response and a new call
+		code, what := sweepRace(in.At(1).AsInt(), in.At(2).Uint64())
+		return List(Int(-4), Int(code), Str(what))
+	}
 	if in.Len() == 4 { // (2 ncallers percaller seed): concurrent callers, evaluated on the Go side
 		code, what := stress(in.At(1).AsInt(), in.At(2).AsInt(), in.At(3).Uint64())
 		return List(Int(-3), Int(code), Str(what))
@@ -398,7 +403,11 @@ func run(in Sx) Sx {
 		code, what := fullTable(uint16(in.At(0).Uint64()))
 		return List(Int(-2), Int(code), Str(what))
 	}
-	h := newHist(uint16(in.At(0).Uint64()))
+	qsize := 16
+	if in.Len() == 3 { // (c0 ops q): request queue of capacity q (0 = a call waits in makeCall until its request is taken)
+		qsize = in.At(2).AsInt()
+	}
+	h := newHist(uint16(in.At(0).Uint64()), qsize)
 	ops := in.At(1)
 	// the ops run on an "owner" goroutine (the thread that calls Dispatch / ReapTimeout); the
 	// controller watches it: an owner parked in the client's mutex while nobody else can hold it
@@ -945,8 +954,132 @@ func stress(ncallers, per int, seed uint64) (int64, string) {
 	return 0, ""
 }
 
+// sweepRace: the expiry sweep runs on its own goroutine (as the reaper does) over a big table while
+// the owner dispatches the late response of the one overdue call A and at once makes a new call B
+// that is given A's sequence number (the counter stands just below it).  Whatever the interleaving:
+// A is completed exactly once (by its response or by the time-out), B - whose deadline is a minute
+// away - is never completed with RequestTimeout and its own response completes it.
+// returns 0 ok | 3 wrong completion of A or B's response unmatched | 5 B timed out | 7 completed twice
+func sweepRace(trials int, seed uint64) (int64, string) {
+	const fillers = 30000
+	cli := qnet.NewRpcClient(context.Background(), 64)
+	drain := func() {
+		for {
+			select {
+			case <-cli.PendingQueue():
+			default:
+				return
+			}
+		}
+	}
+	nop := func(proto.Message, int32) error { return nil }
+	for i := 0; i < fillers; i++ { // numbers 1..30000, deadlines a minute away: they make the sweep long
+		cli.AsyncCall(node, wrapperspb.String("f"), nop)
+		drain()
+	}
+	rng := NewRng(seed)
+	var checked int64
+	defer func() { atomic.AddInt64(&fullChecked, checked) }()
+	for tr := 0; tr < trials; tr++ {
+		x := uint16(40000 + tr)
+		var aCount, bCount, aCode, bCode int32
+		var bRid int64
+		cli.VerifSetCounter(x - 1)
+		cli.AsyncCall(node, wrapperspb.String("a"), func(m proto.Message, code int32) error {
+			atomic.AddInt32(&aCount, 1)
+			atomic.StoreInt32(&aCode, code)
+			return nil
+		})
+		drain()
+		cli.VerifSetDeadline(x, time.Now().Add(-time.Second)) // A is overdue
+		cli.VerifSetCounter(x - 1)                            // the next call will be given x once it is free
+		swept := make(chan struct{})
+		go func() { cli.VerifSweep(time.Now()); close(swept) }()
+		for k := rng.Intn(400); k > 0; k-- { // somewhere inside the sweep
+			runtime.Gosched()
+		}
+		respA, _ := proto.Marshal(wrapperspb.String("r1"))
+		errA := cli.Dispatch(packet.New(msgID, x, fatchoy.PFlagRpc, respA))
+		cli.AsyncCall(node, wrapperspb.String("b"), func(m proto.Message, code int32) error {
+			atomic.AddInt32(&bCount, 1)
+			atomic.StoreInt32(&bCode, code)
+			if m != nil {
+				atomic.StoreInt64(&bRid, ridOf(m))
+			}
+			return nil
+		})
+		var bSeq uint16
+		select {
+		case p := <-cli.PendingQueue():
+			bSeq = p.Seq()
+		default:
+		}
+		<-swept
+		cli.ReapTimeout()
+		checked++
+		what := "trial " + strconv.Itoa(tr) + ": "
+		if n := atomic.LoadInt32(&aCount); n != 1 {
+			return 7, what + "call A completed " + strconv.Itoa(int(n)) + " times"
+		}
+		if errA == nil && atomic.LoadInt32(&aCode) != 0 || errA != nil && atomic.LoadInt32(&aCode) != int32(codes.RequestTimeout) {
+			return 3, what + "call A: response matched=" + strconv.FormatBool(errA == nil) + " but completed with code " + strconv.Itoa(int(atomic.LoadInt32(&aCode)))
+		}
+		if atomic.LoadInt32(&bCount) != 0 {
+			if atomic.LoadInt32(&bCode) == int32(codes.RequestTimeout) {
+				return 5, what + "call B (made during the sweep, deadline a minute away, number " + strconv.Itoa(int(bSeq)) + ") was completed with RequestTimeout"
+			}
+			return 7, what + "call B completed before anything answered it"
+		}
+		respB, _ := proto.Marshal(wrapperspb.String("r2"))
+		if err := cli.Dispatch(packet.New(msgID, bSeq, fatchoy.PFlagRpc, respB)); err != nil {
+			return 3, what + "the response to call B is unmatched: " + err.Error()
+		}
+		if atomic.LoadInt32(&bCount) != 1 || atomic.LoadInt32(&bCode) != 0 || atomic.LoadInt64(&bRid) != 2 {
+			return 3, what + "call B not completed once with its own reply"
+		}
+		if bSeq == x {
+			atomic.AddInt64(&sweepRaceReused, 1)
+		}
+	}
+	return 0, ""
+}
+
+var sweepRaceReused int64
+
+// all calls blocking, request queue of capacity 0: every call waits inside makeCall (holding the
+// table mutex - the known hazard) until the harness takes its request
+func genUnbuffered(rng *Rng) Sx {
+	c0 := uint16(rng.PickInt(0, 65534, rng.Intn(65536)))
+	m := &aim{counter: c0}
+	var ops []Sx
+	rid := int64(0)
+	n := rng.Range(2, 10)
+	for i := 0; i < n; i++ {
+		switch k := rng.Intn(10); {
+		case k < 5 || len(m.out) == 0:
+			adj := rng.PickI64(0, 0, 1000, -5000)
+			ops = append(ops, Ints(0, 1, adj))
+			if adj == 0 {
+				adj = 60000
+			}
+			m.call(adj)
+		case k < 8:
+			x := rng.Intn(len(m.out))
+			ops = append(ops, Ints(1, int64(m.out[x]), rid, int64(rng.PickInt(0, 0, 9)), 1))
+			rid++
+			m.drop(x)
+		default:
+			now := rng.PickI64(2000, 90000)
+			ops = append(ops, Ints(2, now), Ints(3))
+			m.sweep(now)
+		}
+	}
+	ops = append(ops, Ints(2, 200000), Ints(3))
+	return List(Uint(uint64(c0)), ListOf(ops), Int(0))
+}
+
 func nontrivial(in Sx) bool {
-	if in.Len() == 1 || in.Len() == 4 {
+	if in.Len() == 1 || in.Len() == 4 || (in.Len() == 3 && in.At(1).Kind == 'i') {
 		return true
 	}
 	calls := 0
@@ -974,7 +1107,7 @@ func gen(a Args, out *Out) {
 			obs = run(in)
 		}
 		out.Case(kind, nontrivial(in), in, obs)
-		if in.Len() == 1 || in.Len() == 4 {
+		if in.Len() == 1 || in.Len() == 4 || (in.Len() == 3 && in.At(1).Kind == 'i') {
 			return
 		}
 		var flat []Sx
@@ -1028,6 +1161,15 @@ func gen(a Args, out *Out) {
 		in := List(Uint(uint64(r3.Intn(65536))))
 		out.Case("full", true, in, run(in))
 	}
+	r6, r7 := rng.Fork(), rng.Fork()
+	for i := 0; i < nhist/8; i++ {
+		emit("unbuffered", genUnbuffered(r6))
+	}
+	for i := 0; i < nfull; i++ {
+		in := Ints(3, int64(60*nfull), int64(r7.Intn(1<<30)))
+		out.Case("sweeprace", true, in, run(in))
+	}
+	out.CountN("sweeprace:call B was given A's number", int(atomic.LoadInt64(&sweepRaceReused)))
 	r4 := rng.Fork()
 	for i := 0; i < nstress; i++ {
 		in := Ints(2, int64(r4.Range(2, 8)), int64(r4.Range(5, 120)), int64(r4.Intn(1<<30)))
